@@ -55,7 +55,7 @@ def classify(res, exp):
     if exp["status"] == "halt" and not ("Program fault" in both or "Bug:" in both) and res["phase"] in ("interp", "run"):
         faulted = False       # a halted executable may end through abort(): the exit class is what counts
     if faulted and res["phase"] != "link":
-        sig = "Program fault" if "Program fault" in both else ("Bug" if "Bug:" in both else "signal %d" % -res["rc"])
+        sig = "Bug" if "Bug:" in both else ("Program fault" if "Program fault" in both else "signal %d" % -res["rc"])
         return ("fault", "%s in %s" % (sig, res["phase"]))
     if res["phase"] in ("compile", "interp") and not got_ok and re.search(r"\((?:Fatal )?Error\)", both) \
             and re.search(r'^"[^"]*", line \d+:|\[L\d+ C\d+\]', both, re.M):
